@@ -6,6 +6,14 @@
 //        the public entry points.  A fork server runs the probes of one stream in a child: a crash, sanitizer report, hang (alarm) or
 //        uncaught exception loses one probe, is attributed to it exactly and recorded; the child is restarted behind it.
 //   drv_fault one <stream> <fault-descriptor>      replay one probe in-process (for replays and for gdb)
+//   drv_fault hostile <rows.ndjson> <shard> <nshards>
+//        SEMANTIC faults: every row printed by TLC from MC_EbDecoder (symbol string, declared counts, topology-split table, start-face bits,
+//        and the model's prediction) is assembled into a position-only Draco 2.2 Edgebreaker stream with the library's own public writers
+//        (EncoderBuffer, EncodeVarint, RAnsBitEncoder) and decoded like any other probe; one EbProbe record per row that the model or the
+//        decoder accepts or on which they disagree, one EbBatch summary per shard
+//   drv_fault hostile1 '<row json>'                replay one row in-process
+//   drv_fault nest <stream>                        the stream with a chain of D nested sub-metadata blocks in front of its geometry, D around and
+//                                                  far above the decoder's nesting limit (grammar-generated, not a corruption of existing bytes)
 // Allocation accounting (C18): global operator new/delete are replaced (plain build only; ASan has its own), every request >= 64 KiB and
 // the peak of live memory are recorded per probe together with the element counts announced through DRACO_VERIF_DECLARE at that moment.
 #include <dirent.h>
@@ -20,6 +28,8 @@
 #include "geom.h"
 #include "draco/animation/keyframe_animation.h"
 #include "draco/animation/keyframe_animation_decoder.h"
+#include "draco/compression/bit_coders/rans_bit_encoder.h"
+#include "draco/core/varint_encoding.h"
 #include "draco/core/verif_hooks.h"
 using namespace draco;
 using namespace vg;
@@ -274,6 +284,207 @@ static int run_sweep(const std::string &dir, int shard, int nshards, int level, 
   return 0;
 }
 
+
+// ---------------------------------------------------------------------------------------------- semantic faults: streams assembled from model rows
+// Layout (bitstream 2.2, mesh, Edgebreaker, standard traversal, no attribute connectivity data, one int32x3 POSITION attribute stored raw):
+//   "DRACO" 2 2 | type 1 | method 1 | flags u16 0 | traversal type 0 | varint nv | varint nf | u8 0 | varint nsym | varint nss |
+//   varint nev { varint dsrc, varint src-split } (bits: 1 per event) | symbols: varint size + bits (decoder order) | start faces: rABS block |
+//   u8 1 decoder | i8 -1, u8 0 (vertex attribute), u8 0 (depth first) | varint 1 | 0, 5 (int32), 3, 0, varint 0 | u8 1 (integer) | i8 -2 (no prediction), u8 0 (raw),
+//   u8 4 | values
+static std::vector<char> assemble_eb(const vrt::J &row) {
+  EncoderBuffer b;
+  b.Encode("DRACO", 5);
+  b.Encode((uint8_t)2); b.Encode((uint8_t)2); b.Encode((uint8_t)1); b.Encode((uint8_t)1); b.Encode((uint16_t)0);
+  b.Encode((uint8_t)0);
+  const std::string &sy = row["s"].s;
+  const long nv = (long)row["nv"].n, nf = (long)row["nf"].n, nss = (long)row["nss"].n;
+  EncodeVarint<uint32_t>((uint32_t)nv, &b);
+  EncodeVarint<uint32_t>((uint32_t)nf, &b);
+  b.Encode((uint8_t)0);
+  EncodeVarint<uint32_t>((uint32_t)sy.size(), &b);
+  EncodeVarint<uint32_t>((uint32_t)nss, &b);
+  const std::vector<vrt::J> &ev = row["ev"].a;
+  EncodeVarint<uint32_t>((uint32_t)ev.size(), &b);
+  if (!ev.empty()) {
+    long last = 0;
+    for (auto &e : ev) {
+      const long src = (long)e[0].n, split = (long)e[1].n;
+      EncodeVarint<uint32_t>((uint32_t)(src - last), &b);
+      EncodeVarint<uint32_t>((uint32_t)(src - split), &b);
+      last = src;
+    }
+    b.StartBitEncoding((int64_t)ev.size(), false);
+    for (auto &e : ev) b.EncodeLeastSignificantBits32(1, (uint32_t)e[2].n);
+    b.EndBitEncoding();
+  }
+  b.StartBitEncoding((int64_t)sy.size() * 3 + 8, true);
+  for (char c : sy) {
+    const uint32_t code = c == 'C' ? 0 : c == 'S' ? 1 : c == 'L' ? 3 : c == 'R' ? 5 : 7;
+    b.EncodeLeastSignificantBits32(c == 'C' ? 1 : 3, code);
+  }
+  b.EndBitEncoding();
+  RAnsBitEncoder sf;
+  sf.StartEncoding();
+  const std::vector<int> sb = row["sb"].ints();
+  for (size_t i = 0; i < sy.size() + 2; ++i) sf.EncodeBit(i < sb.size() ? sb[i] != 0 : false);     // one bit per possible active corner: never runs dry
+  sf.EndEncoding(&b);
+  b.Encode((uint8_t)1);
+  b.Encode((int8_t)-1); b.Encode((uint8_t)0); b.Encode((uint8_t)0);
+  EncodeVarint<uint32_t>(1, &b);
+  b.Encode((uint8_t)0); b.Encode((uint8_t)5); b.Encode((uint8_t)3); b.Encode((uint8_t)0); EncodeVarint<uint32_t>(0, &b);
+  b.Encode((uint8_t)1);
+  b.Encode((int8_t)-2); b.Encode((uint8_t)0); b.Encode((uint8_t)4);
+  for (long i = 0; i < 3 * (3 * nf + 6); ++i) b.Encode((int32_t)(2 * (i + 1)));
+  return std::vector<char>(b.data(), b.data() + b.size());
+}
+
+struct EbStats { long n, agree_rej, emitted; };
+static void probe_eb(const vrt::J &row, long index, EbStats *st) {
+  const std::vector<char> bytes = assemble_eb(row);
+  std::vector<char> buf(bytes);
+  const uint64_t h0 = vrt::fnv1a(buf.data(), buf.size());
+  Decoded d;
+  bool tolerated_bad_alloc = false;
+  try {
+    d = decode(buf.data(), buf.size());
+    if (d.ok) touch_everything(*d.pc, d.is_mesh);
+  } catch (const std::bad_alloc &) { tolerated_bad_alloc = true; } catch (const std::length_error &) { tolerated_bad_alloc = true; }
+  const bool modified = vrt::fnv1a(buf.data(), buf.size()) != h0;
+  const std::string &pred = row["out"].s;
+  st->n++;
+  if (!d.ok && !modified && !tolerated_bad_alloc && pred.compare(0, 4, "rej:") == 0) { st->agree_rej++; return; }
+  st->emitted++;
+  std::vector<int> faces;
+  if (d.ok && d.is_mesh) faces = faces_of(*d.mesh());
+  out.begin("EbProbe").i("row", index).s("s", row["s"].s).i("nv", row["nv"].n).i("nf", row["nf"].n).i("nss", row["nss"].n).s("pred", pred).s("pk", pred.substr(0, pred.find(':'))).i("pred_np", row["np"].n)
+      .arr("pred_faces", row["faces"].ints()).b("ok", d.ok).b("modified", modified).b("bad_alloc", tolerated_bad_alloc)
+      .i("np", d.ok ? (long long)d.pc->num_points() : 0).arr("faces", faces).raw("sv", d.ok ? struct_json(*d.pc, d.is_mesh) : "{\"np\":0,\"nf\":0,\"maxface\":-1,\"atts\":[]}").end();
+  fflush(out.f);
+}
+
+static std::string first_report(const std::string &errpath, bool *oom) {
+  std::string report;
+  std::ifstream ef(errpath);
+  std::string l;
+  while (std::getline(ef, l)) {
+    if (l.find("allocator is out of memory") != std::string::npos || l.find("exceeds maximum supported size") != std::string::npos ||
+        l.find("std::bad_alloc") != std::string::npos || l.find("std::length_error") != std::string::npos) *oom = true;
+    if (report.empty() && (l.find("ERROR: AddressSanitizer") != std::string::npos || l.find("runtime error") != std::string::npos || l.find("TERMINATE") != std::string::npos ||
+                           l.find("terminate called") != std::string::npos || l.find("Assertion") != std::string::npos)) report = l.substr(0, 400);
+    if (report.size() && l.find(" in draco::") != std::string::npos && report.find(" @ ") == std::string::npos) { const size_t q = l.find(" in draco::"); report += " @ " + l.substr(q + 4, 160); }
+  }
+  return report;
+}
+
+static int run_hostile(const std::string &rowsfile, int shard, int nshards) {
+  std::vector<std::string> lines;
+  {
+    std::ifstream f(rowsfile);
+    std::string line;
+    long k = 0;
+    while (std::getline(f, line)) { if (line.empty()) continue; if (k++ % nshards == shard) lines.push_back(line); }
+  }
+  g_sh = (Shared *)mmap(nullptr, sizeof(Shared) + sizeof(EbStats), PROT_READ | PROT_WRITE, MAP_SHARED | MAP_ANONYMOUS, -1, 0);
+  EbStats *st = (EbStats *)(g_sh + 1);
+  std::set_terminate(on_terminate);
+  long start = 0, crashes = 0, timeouts = 0;
+  const std::string errpath = std::string(getenv("VERIF_RECORDS") ? getenv("VERIF_RECORDS") : "/dev/null") + ".stderr";
+  while (start < (long)lines.size()) {
+    fflush(out.f); fflush(stdout); fflush(stderr);
+    g_sh->idx = start;
+    const pid_t pid = fork();
+    if (pid == 0) {
+      if (getenv("VERIF_RECORDS")) { FILE *ef = freopen(errpath.c_str(), "w", stderr); (void)ef; }
+      for (long i = start; i < (long)lines.size(); ++i) {
+        g_sh->idx = i;
+        alarm(20);
+        probe_eb(vrt::jparse_line(lines[i]), (long)i * nshards + shard, st);
+      }
+      alarm(0);
+      fflush(out.f);
+      _exit(0);
+    }
+    int stt = 0;
+    waitpid(pid, &stt, 0);
+    if (WIFEXITED(stt) && WEXITSTATUS(stt) == 0) break;
+    const long at = g_sh->idx.load();
+    const bool timeout = WIFSIGNALED(stt) && WTERMSIG(stt) == SIGALRM;
+    bool oom = false;
+    const std::string report = first_report(errpath, &oom);
+    if (timeout) ++timeouts; else if (!oom) ++crashes;
+    const vrt::J row = vrt::jparse_line(lines[at]);
+    out.begin("Abnormal").b("oom", oom).s("report", report).s("stream", "model:" + row["s"].s).s("fault", lines[at]).i("len", (long long)assemble_eb(row).size()).b("timeout", timeout)
+        .i("signal", WIFSIGNALED(stt) ? WTERMSIG(stt) : 0).i("exit", WIFEXITED(stt) ? WEXITSTATUS(stt) : -1).s("pred", row["out"].s).end();
+    st->n++;
+    start = at + 1;
+  }
+  out.begin("EbBatch").i("shard", shard).i("rows", (long long)lines.size()).i("probed", st->n).i("agree_rej", st->agree_rej).i("emitted", st->emitted).i("crashes", crashes).i("timeouts", timeouts).end();
+  fprintf(stderr, "STATS probes=%ld crashes=%ld timeouts=%ld\n", (long)lines.size(), crashes, timeouts);
+  return 0;
+}
+
+static int run_hostile1(const std::string &rowjson) {
+  Shared sh{}; g_sh = &sh;
+  EbStats st{};
+  probe_eb(vrt::jparse_line(rowjson), 0, &st);
+  if (!st.emitted) printf("{\"e\":\"EbAgree\",\"pred\":\"%s\"}\n", vrt::jparse_line(rowjson)["out"].s.c_str());
+  return 0;
+}
+
+// ---------------------------------------------------------------------------------------------- grammar-generated: nested metadata
+// header with METADATA_FLAG, then: varint 0 attribute metadata | D x (varint 0 entries, varint 1 sub-metadata, u8 0 name length) | varint 0, varint 0 | rest of the stream
+static std::vector<char> with_nesting(const std::vector<char> &b, long depth) {
+  if (b.size() < 11) return b;
+  std::vector<char> c(b.begin(), b.begin() + 11);
+  c[10] = (char)((unsigned char)c[10] | 0x80);      // flags are little-endian u16 at offset 9: METADATA_FLAG = 0x8000
+  c.push_back(0);
+  for (long i = 0; i < depth; ++i) { c.push_back(0); c.push_back(1); c.push_back(0); }
+  c.push_back(0); c.push_back(0);
+  c.insert(c.end(), b.begin() + 11, b.end());
+  return c;
+}
+static int run_nest(const std::string &stream) {
+  const std::vector<char> b = slurp(stream);
+  static const long depths[] = {0, 1, 2, 999, 1000, 1001, 1002, 5000, 60000, 300000};
+  g_sh = (Shared *)mmap(nullptr, sizeof(Shared), PROT_READ | PROT_WRITE, MAP_SHARED | MAP_ANONYMOUS, -1, 0);
+  std::set_terminate(on_terminate);
+  const std::string errpath = std::string(getenv("VERIF_RECORDS") ? getenv("VERIF_RECORDS") : "/dev/null") + ".stderr";
+  long crashes = 0, timeouts = 0, n = 0;
+  for (long depth : depths) {
+    ++n;
+    fflush(out.f); fflush(stdout); fflush(stderr);
+    const std::vector<char> bytes = with_nesting(b, depth);
+    const pid_t pid = fork();
+    if (pid == 0) {
+      if (getenv("VERIF_RECORDS")) { FILE *ef = freopen(errpath.c_str(), "w", stderr); (void)ef; }
+      alarm(60);
+      int rc = 41;
+      {
+        std::vector<char> buf(bytes);
+        Decoded d = decode(buf.data(), buf.size());
+        if (d.ok) { touch_everything(*d.pc, d.is_mesh); rc = 40; }
+      }   // the decoded geometry (and its metadata tree) is destroyed here
+      _exit(rc);
+    }
+    int st = 0;
+    waitpid(pid, &st, 0);
+    const bool normal = WIFEXITED(st) && (WEXITSTATUS(st) == 40 || WEXITSTATUS(st) == 41);
+    if (normal) {
+      out.begin("Nest").s("stream", stream).i("depth", depth).i("len", (long long)bytes.size()).b("ok", WEXITSTATUS(st) == 40).end();
+    } else {
+      const bool timeout = WIFSIGNALED(st) && WTERMSIG(st) == SIGALRM;
+      bool oom = false;
+      const std::string report = first_report(errpath, &oom);
+      if (timeout) ++timeouts; else ++crashes;
+      out.begin("Abnormal").b("oom", false).s("report", report.empty() ? "signal / abnormal exit while decoding or destroying nested metadata" : report).s("stream", stream)
+          .s("fault", "nest:" + std::to_string(depth)).i("len", (long long)bytes.size()).b("timeout", timeout).i("signal", WIFSIGNALED(st) ? WTERMSIG(st) : 0)
+          .i("exit", WIFEXITED(st) ? WEXITSTATUS(st) : -1).end();
+    }
+  }
+  fprintf(stderr, "STATS probes=%ld crashes=%ld timeouts=%ld\n", n, crashes, timeouts);
+  return 0;
+}
+
 static int run_one(const std::string &stream, const std::string &desc) {
   Fault f{8, 0, 0, 0};
   sscanf(desc.c_str(), "%d:%ld:%lld:%lld", &f.kind, &f.off, &f.a, &f.b);
@@ -302,6 +513,9 @@ int main(int argc, char **argv) {
   if (getenv("VERIF_RECORDS")) { out.f = fopen(getenv("VERIF_RECORDS"), "w"); if (!out.f) return 2; }
   if (argc >= 7 && !strcmp(argv[1], "sweep")) return run_sweep(argv[2], atoi(argv[3]), atoi(argv[4]), atoi(argv[5]), strtoull(argv[6], 0, 10));
   if (argc >= 4 && !strcmp(argv[1], "one")) return run_one(argv[2], argv[3]);
+  if (argc >= 5 && !strcmp(argv[1], "hostile")) return run_hostile(argv[2], atoi(argv[3]), atoi(argv[4]));
+  if (argc >= 3 && !strcmp(argv[1], "hostile1")) return run_hostile1(argv[2]);
+  if (argc >= 3 && !strcmp(argv[1], "nest")) return run_nest(argv[2]);
   fprintf(stderr, "usage: drv_fault sweep <corpus> <shard> <nshards> <level> <seed> | one <stream> <fault>\n");
   return 2;
 }
